@@ -92,6 +92,20 @@ def main(argv=None):
         check_id = rep["property"]
         shard = {"name": "replay", "replay": rep, "seed": rep.get("seed", 0), "tier": rep.get("tier", "quick"),
                  "env": dict(rep.get("violation", {}).get("env", {}))}
+        mod = importlib.import_module("fv.checks." + check_id.lower())
+        only_key = None
+        if not hasattr(mod, "replay"):
+            # no case-level replay for this check: re-run the deterministic shard that produced the violation (same seed, tier,
+            # shard name and hash seed) and report the violations with the recorded key
+            planned = [s for s in mod.plan(shard["tier"], shard["seed"]) if s.get("name") == rep.get("shard")]
+            if not planned:
+                print("INCONCLUSIVE property=%s reason=replay-shard-not-found (%s)" % (check_id, rep.get("shard")))
+                return 2
+            env = shard["env"]
+            shard = dict(planned[0], seed=shard["seed"], tier=shard["tier"])
+            shard.setdefault("env", {}).update(env)
+            shard["env"].setdefault("PYTHONHASHSEED", "0")
+            only_key = rep.get("key")
         tmp = tempfile.mkdtemp(prefix="fv-replay-")
         try:
             r = run_one(check_id, shard, tmp, 0)
@@ -102,6 +116,8 @@ def main(argv=None):
             print(r.get("stderr", ""))
             return 2
         known = load_findings().get(check_id, {})
+        if only_key is not None:
+            r["violations"] = [v for v in r["violations"] if v["key"] == only_key][:3]
         bad = [v for v in r["violations"] if v["key"] not in known]
         for v in r["violations"]:
             print(("VIOLATION" if v["key"] not in known else "KNOWN-FINDING:") + " property=%s key=%s %s" % (check_id, v["key"], v["what"]))
